@@ -355,9 +355,12 @@ def do_excl(ws, table, rel2x, case):
     # first process: enters, links its jobs, holds the experiment
     h_r, h_w = os.pipe()
     run1 = dict(jobs=case["p1"], end="ok", sync=True, hold=h_r)
+    t1 = time.time()
     pid1, fd1 = fork_run(ws, table, run1)
     os.close(h_r)
     b1 = dict(data=b"", lines=[])
+    wait_line(fd1, b1, "entered", 30)
+    t_enter = time.time() - t1          # how long getting in takes on this machine right now
     out["p1_in"] = wait_line(fd1, b1, "holding", 30)
     out["s_held"] = snapshot(ws, rel2x)
     # second process: tries to enter the same experiment
@@ -367,7 +370,7 @@ def do_excl(ws, table, rel2x, case):
     os.close(c_r)
     b2 = dict(data=b"", lines=[])
     out["p2_trying"] = wait_line(fd2, b2, "try", 10)
-    out["p2_early"] = wait_line(fd2, b2, "entered", case.get("wait", 0.4))
+    out["p2_early"] = wait_line(fd2, b2, "entered", max(case.get("wait", 0.4), 3 * t_enter))
     out["s_waiting"] = snapshot(ws, rel2x)
     # the first one leaves
     if case["leave"] == "kill":
